@@ -52,7 +52,9 @@ func GetServerTLSConfig(serverConfig TLSConfig, logger log.Logger) (tlsConfig *t
 
 	tlsConfig = auth.NewEmptyTLSConfig()
 	if !serverConfig.SkipCAVerification {
-		tlsConfig.ClientAuth = tls.RequireAnyClientCert
+		// The client's chain must verify against ClientCAs (remoteCAPath): RequireAnyClientCert only asks for a
+		// certificate and leaves verification to VerifyPeerCertificate, which below merely logs.
+		tlsConfig.ClientAuth = tls.RequireAndVerifyClientCert
 		tlsConfig.ClientCAs, err = fetchCACert(serverConfig.RemoteCAPath)
 		if err != nil {
 			return nil, fmt.Errorf("failed to read CACert from %s: %w", serverConfig.RemoteCAPath, err)
